@@ -67,6 +67,19 @@ func buildRecords(advertised int, seed uint64) []byte {
 	var recs []byte
 	rot := int(seed % 6)
 	style := int(seed/6) % 3
+	// records of other suites (authentication None, which nobody prefers) of 3, 4
+	// and 5 bytes in front shift the interesting records across the 16-byte chunk
+	// boundaries at every byte offset
+	for i := int(seed/18) % 7; i > 0; i-- {
+		f := ref.SuiteRecord{ID: byte(0x40 + i), Auth: 0}
+		switch (int(seed/126) + i) % 3 {
+		case 1:
+			f.Integs = []byte{0}
+		case 2:
+			f.Integs, f.Confs = []byte{0}, []byte{0}
+		}
+		recs = append(recs, f.Bytes()...)
+	}
 	merged := map[[2]uint8]bool{}
 	for k := 0; k < 6; k++ {
 		i := (k + rot) % 6
